@@ -1775,8 +1775,15 @@ def text_view(case, mod, text, spec_by_name, targets, runtime, parsed_ok, sigs=N
         _get_bases_for_structure = None
     tree = ast.parse(text)
     nodes = {n.name: n for n in tree.body if isinstance(n, ast.ClassDef)}
-    seg = lambda node: ast.get_source_segment(text, node)
     lines = text.split("\n")
+
+    def seg(node):      # ast.get_source_segment without re-splitting the text for every node (ASCII columns assumed
+        a, b = node.lineno - 1, node.end_lineno - 1     # only when the line is ASCII; else fall back)
+        if any(not l.isascii() for l in lines[a:b + 1]):
+            return ast.get_source_segment(text, node)
+        if a == b:
+            return lines[a][node.col_offset:node.end_col_offset]
+        return "\n".join([lines[a][node.col_offset:]] + lines[a + 1:b] + [lines[b][:node.end_col_offset]])
     for ti, name in zip(targets, spec_by_name):
         cls = getattr(mod, name)
         node = nodes.get(name)
